@@ -833,8 +833,28 @@ def _prim_task(spec, repo, seed, n):
     for P in G.polyq:
         if len(P) >= 3 and all((b[0] - a[0]) * (c[1] - a[1]) - (b[1] - a[1]) * (c[0] - a[0]) > 0 for a, b, c in combinations(P, 3)):
             nconv += 1
+    # ... and of in_polygon_convex_with_straight_angles: the same after dropping vertices (never the first of the
+    # list) that lie strictly between their neighbours on a straight side
+    def straighten(P):
+        P = list(P)
+        changed = True
+        while changed and len(P) > 3:
+            changed = False
+            for k in range(1, len(P)):
+                a, m, b = P[k - 1], P[k], P[(k + 1) % len(P)]
+                cross = (m[0] - a[0]) * (b[1] - a[1]) - (m[1] - a[1]) * (b[0] - a[0])
+                dot = (m[0] - a[0]) * (b[0] - m[0]) + (m[1] - a[1]) * (b[1] - m[1])
+                if cross == 0 and dot > 0:
+                    del P[k]; changed = True; break
+        return P
+    nstr = 0
+    for P in G.polyq:
+        Q = straighten(P)
+        if len(Q) >= 3 and all((b[0] - a[0]) * (c[1] - a[1]) - (b[1] - a[1]) * (c[0] - a[0]) > 0 for a, b, c in combinations(Q, 3)):
+            nstr += 1
     cnt['columns'] = G.n
     cnt['columns_strictly_convex_ccw'] = nconv
+    cnt['columns_convex_ccw_after_straightening'] = nstr
     for _ in range(n):
         pos, cls = gen_point(G, rng)
         if G.edge_clearance(pos) < 1.0:
